@@ -58,7 +58,8 @@ def main(tier, seed):
         'columns': '1..3', 'column_types': ['free', 'cont[0,1]', 'binary', 'int[-2,5]', 'int[0,0]', 'cont[0,0]'],
         'hessian_supports': 'all 2^(n*n) subsets (quick, n=3: 60 supports = all with <=2 entries + 14 structured)',
         'hessian_formats': ['triangular', 'square'], 'duplicate_entry': 'first stored entry doubled',
-        'core_formats': ['text'] + (['binary', 'text+comments'] if tier == 'thorough' else []),
+        'core_nl_format': 'text' if tier == 'quick' else 'text for every core model; binary and text+comments for every core model '
+                          'with n<=2 and, for n=3, on the 60 reduced supports',
         'rows': '0..2, every 0/nonzero pattern', 'row_kinds': ['free', '<=', '>=', 'range', '=='],
         'objective_support': 'all subsets + nullptr', 'sense': ['min', 'max'], 'offset': [0, 1.5],
         'warm_start': 'all subsets', 'dual_warm_start': 'all subsets',
@@ -99,6 +100,7 @@ def replay(path):
     e.update({'ASAN_OPTIONS': 'detect_leaks=0:allocator_may_return_null=1', 'UBSAN_OPTIONS': 'print_stacktrace=1'})
     p = subprocess.run([binary, '--work', WORK, '--one', r['case']], capture_output=True, text=True, env=e, errors='replace')
     print(p.stdout)
+    shutil.rmtree(WORK, ignore_errors=True)
     if p.returncode != 0 or '"done"' not in p.stdout:
         print(p.stderr[-3000:])
         return 1
